@@ -150,7 +150,7 @@ func drawC06(t *rapid.T) C06Case {
 		Unicode:   rapid.IntRange(0, 5).Draw(t, "unicode") == 0,
 		WideDates: true,
 	}
-	gen.MaybeLarge(t, &cfg, 40)
+	gen.MaybeLarge(t, &cfg, 4)
 	j := gen.GenJournal(t, cfg)
 	wide := rapid.IntRange(0, 7).Draw(t, "wide") == 0
 	if wide {
@@ -187,7 +187,9 @@ func drawC06(t *rapid.T) C06Case {
 	if wide {
 		tree = gen.SplitIntoTreeMin(t, gen.Shuffle(t, j.Directives), 4, 8)
 	}
-	if !wide && rapid.IntRange(0, 9).Draw(t, "deepDiamond") == 0 {
+	if !wide && rapid.IntRange(0, 14).Draw(t, "deepChain") == 0 {
+		tree = gen.DeepChainTree(t, j.Directives, rapid.IntRange(17, 40).Draw(t, "chainDepth"))
+	} else if !wide && rapid.IntRange(0, 9).Draw(t, "deepDiamond") == 0 {
 		// a deep include chain ending in two sibling files one of which also includes the other (a legal
 		// diamond: the shared file holds transactions only, so including it twice keeps the journal valid)
 		tree = c06DeepDiamond(t, j)
